@@ -149,8 +149,8 @@ macro_rules! c15_verifier_new {
             let mut coin = CtrCoin::new(&[]);
             // degree bound: 2^k - 1 (the documented use) or, one case in two, any bound whose padded domain is the same
             let d: usize = kani::any();
-            // 2^(k-1) < d < 2^k, so that d.next_power_of_two() = 2^k (for d an exact power of two the library's domain is d * blowup)
-            kani::assume(d < (1usize << k) && (d > (1usize << k) / 2 || k == 0));
+            // 2^(k-1) <= d < 2^k: d + 1 coefficients are padded to 2^k (d an exact power of two included: the domain was mis-sized there)
+            kani::assume(d < (1usize << k) && d + 1 > (1usize << k) / 2);
             let pow2 = d + 1 == (1usize << k);
             let res = FriVerifier::<T, StubCh, PH2, CtrCoin>::new(&mut ch, &mut coin, options.clone(), d);
             // expected: before each of the c folding steps the number of coefficients is divisible by the folding factor
